@@ -646,6 +646,10 @@ r_expand(const Expansion &expansion, const vector_string &args,
           subst = stringify(subst);
         }
       }
+      else if (node._stringify) {
+        // Stringifying an absent argument yields an empty string literal.
+        subst = "\"\"";
+      }
       else if (i == _variadic_param && node._paste) {
         // Special case GCC behavior: if __VA_ARGS__ is pasted to a comma and
         // no arguments are passed, the comma is removed.  MSVC does this
